@@ -9,3 +9,4 @@ import OsyrisProofs.C13
 #print axioms Osyris.Readers.var_loop_reads_columns
 #print axioms Osyris.Readers.expReads_offs
 #print axioms Osyris.C13.vectorMerges_sound
+#print axioms Osyris.Layout.totalBytes_varBlock_hydro
